@@ -178,7 +178,7 @@ PROPS["C04"] = {
     "theorems": [CV + t for t in ["C04_queue_inv", "C04_spinlock_excl", "C04_wait_atomic", "C04_unlink_once_partial", "C04_remove_count_handshake",
                  "C04_unlink_once_full_false", "C04_outcome_partial", "C04_exitUnl_is_unl", "C04_signal", "C04_broadcast", "C04_broadcast_unlinks_all", "C04_no_lost_wake"]],
     "layers": ["cv", "mux"],
-    "oracles": {"swallowed-wakeup", "stuck", "steplimit", "early-timeout", "bad-cancel", "bad-result", "panic", "crash"},
+    "oracles": {"swallowed-wakeup", "waitn-swallowed-wakeup", "stuck", "steplimit", "early-timeout", "bad-cancel", "bad-result", "panic", "crash"},
     "plan": {"quick": [("cv", 120, 8), ("cv_raw", 60, 8), ("cv_rsignal", 60, 8), ("waitn_cv", 80, 8)],
              "thorough": [("cv", 1200, 16), ("cv_raw", 600, 16), ("cv_rsignal", 600, 16), ("waitn_cv", 800, 16)]},
     "extra_corpus": [],
@@ -191,7 +191,7 @@ PROPS["C08"] = {
                  "C08_sound", "C08_notify_post", "C08_expiry_min_partial", "C08_expiry_min_witness", "C08_complete_witness", "C08_complete_partial",
                  "C08_stack_notified", "C08_unaffected_partial", "C08_ancestors_unaffected"]],
     "layers": ["note", "mux"],
-    "oracles": {"stuck", "expiry-min", "notify-post", "note-wait", "early-timeout", "panic", "crash", "dead-object"},
+    "oracles": {"stuck", "expiry-min", "expiry-min-born-notified", "notify-post", "note-wait", "early-timeout", "panic", "crash", "dead-object"},
     "plan": {"quick": [("note", 150, 8), ("note_f4", 10, 8)], "thorough": [("note", 1500, 16), ("note_f4", 60, 16)]},
     "harness_args": ["checkplain=1"],
     "level_text": "Kernel-checked theorems over the Note model (note.c and the wait path of nsync_note_wait statement by statement on a forest with parent/children/disconnecting/waiters, note mutexes abstract; unbounded notes, threads, depth, steps): the flag and the API-level 'notified' are one-way, every observer history is monotone, a notified note has a cause (notify called or a deadline passed on itself or an ancestor-at-some-time), notify's post-condition, ancestors are never affected, everything on a notifier's recursion stack is notified. Tied to the code by lockstep replay including a digest of the REAL note forest after every note API return, which the model must reproduce.",
